@@ -103,62 +103,44 @@ def read_code_facts():
             and n.value.startswith('git ')]
     if len(cmds) != 1:
         raise ValueError('author command not found')
-    # _reset
+    # _reset: only DATA is read (keyword values, which of the two shapes the parent test has); the control flow is
+    # tied to the model by the correspondence run, so that a renamed local or reordered independent statements
+    # do not change the facts.
     csrc = open(os.path.join(core.REPO, 'bert_e/workflow/gitwaterflow/commands.py')).read()
     fn = _find(ast.parse(csrc), ast.FunctionDef, '_reset')
-    outer = [n for n in fn.body if isinstance(n, ast.For) and getattr(n.iter, 'id', '') == 'wbranches'
-             and any(isinstance(x, ast.For) for x in n.body)]
-    if len(outer) != 1:
-        raise ValueError('classification loop not found')
-    loop = outer[0]
-    feat = walk = inner = None
-    for st in loop.body:
-        if isinstance(st, ast.Assign) and getattr(st.targets[0], 'id', '') == 'feature':
-            v = st.value
-            if not (isinstance(v, ast.Call) and getattr(v.func, 'id', '') == 'set' and len(v.args) == 1):
-                raise ValueError('feature is not set(...)')
-            c = v.args[0]
-            if not (isinstance(c, ast.Call) and ast.dump(c.func) == ast.dump(ast.parse('src.get_commit_diff').body[0].value)
-                    and getattr(c.args[0], 'id', '') == 'dst'):
-                raise ValueError('feature is not src.get_commit_diff(dst...)')
-            feat = _kwbool(c, 1, 'ignore_merges', default_ignore)
-        elif isinstance(st, ast.Assign) and getattr(st.targets[0], 'id', '') == 'wcommits':
-            v = st.value
-            ok = (isinstance(v, ast.Call) and getattr(v.func, 'id', '') == 'reversed' and
-                  isinstance(v.args[0], ast.Call) and getattr(v.args[0].func, 'id', '') == 'list')
-            if not ok:
-                raise ValueError('wcommits is not reversed(list(...))')
-            c = v.args[0].args[0]
-            if not (isinstance(c, ast.Call) and ast.dump(c.func) == ast.dump(ast.parse('branch.get_commit_diff').body[0].value)
-                    and getattr(c.args[0], 'id', '') == 'dst'):
-                raise ValueError('wcommits is not branch.get_commit_diff(dst...)')
-            walk = _kwbool(c, 1, 'ignore_merges', default_ignore)
-        elif isinstance(st, ast.For):
-            inner = st
-    if feat is None or walk is None or inner is None or getattr(inner.iter, 'id', '') != 'wcommits':
-        raise ValueError('unexpected body of the classification loop')
-    body = [s for s in inner.body]
-    norm = [ast.unparse(s) for s in body]
-    skip_feature = 'if rev in feature:\n    continue'
-    skip_robot = 'if rev.author == job.settings.robot:\n    continue'
-    rule_single = ('if len(rev.parents) == 1:\n    parent = rev.parents[0]\n'
-                   '    if parent in feature or dst.includes_commit(parent):\n'
-                   '        feature.add(rev)\n        continue')
-    rule_all = ('if rev.parents and all((p in feature or dst.includes_commit(p) for p in rev.parents)):\n'
-                '    feature.add(rev)\n    continue')
-    lossy = 'lossy_reset = LossyResetWarning(active_options=job.active_options)'
-    if len(norm) != 4 or norm[0] != skip_feature or norm[1] != skip_robot or norm[3] != lossy:
-        raise ValueError('unexpected statements in the commit loop: %r' % norm)
-    if norm[2] == rule_single:
-        rule_is_all = False
-    elif norm[2] == rule_all:
-        rule_is_all = True
-    else:
-        raise ValueError('unexpected parent rule: %r' % norm[2])
-    # the decision and the effect
-    tail = [ast.unparse(s) for s in fn.body[fn.body.index(loop) + 1:]]
-    if not tail or tail[0] != 'if lossy_reset and (not force):\n    raise lossy_reset':
-        raise ValueError('unexpected refusal test: %r' % tail[:1])
+    parent_of = {}
+    for node in ast.walk(fn):
+        for ch in ast.iter_child_nodes(node):
+            parent_of[ch] = node
+    diffs = [n for n in ast.walk(fn) if isinstance(n, ast.Call) and isinstance(n.func, ast.Attribute)
+             and n.func.attr == 'get_commit_diff']
+    if len(diffs) != 2:
+        raise ValueError('expected two get_commit_diff calls in _reset, found %d' % len(diffs))
+
+    def wrappers(n):
+        res = []
+        while n in parent_of and isinstance(parent_of[n], ast.Call) and n in parent_of[n].args:
+            n = parent_of[n]
+            res.append(getattr(n.func, 'id', '?'))
+        return res
+    feat_calls = [c for c in diffs if 'set' in wrappers(c)]
+    walk_calls = [c for c in diffs if 'set' not in wrappers(c)]
+    if len(feat_calls) != 1 or len(walk_calls) != 1:
+        raise ValueError('cannot tell the feature log from the walk log')
+    feat = _kwbool(feat_calls[0], 1, 'ignore_merges', default_ignore)
+    walk = _kwbool(walk_calls[0], 1, 'ignore_merges', default_ignore)
+    loops = [n for n in ast.walk(fn) if isinstance(n, ast.For) and any(
+        isinstance(x, ast.Call) and isinstance(x.func, ast.Attribute) and x.func.attr == 'includes_commit'
+        for x in ast.walk(n)) and not any(isinstance(x, ast.For) for x in ast.walk(n) if x is not n)]
+    if len(loops) != 1:
+        raise ValueError('commit loop of _reset not found')
+    has_all = any(isinstance(x, ast.Call) and getattr(x.func, 'id', '') == 'all' for x in ast.walk(loops[0]))
+    has_len1 = any(isinstance(x, ast.Compare) and isinstance(x.left, ast.Call) and getattr(x.left.func, 'id', '') == 'len'
+                   and len(x.ops) == 1 and isinstance(x.ops[0], ast.Eq) and isinstance(x.comparators[0], ast.Constant)
+                   and x.comparators[0].value == 1 for x in ast.walk(loops[0]))
+    if has_all == has_len1:
+        raise ValueError('parent test of _reset has neither of the two known shapes')
+    rule_is_all = has_all
     pushes = [n for n in ast.walk(fn) if isinstance(n, ast.Call) and getattr(n.func, 'id', '') == 'push']
     if len(pushes) != 1:
         raise ValueError('expected exactly one push in _reset')
@@ -217,7 +199,7 @@ LAYOUTS = {
 N_REAL_W = {'L3': 2, 'L2': 1, 'FF3': 2, 'FF2': 1, 'S4': 3}
 SRC1, SRC2 = 'bugfix/TEST-1', 'feature/TEST-2'
 SRC_OPS = ['A', 'R', 'E', 'Z']
-MANUAL_KINDS = ['P', 'Ms', 'Md', 'B']
+MANUAL_KINDS = ['P', 'Ms', 'Md', 'B', 'X']
 
 
 def dests_of(layout_name):
@@ -235,6 +217,7 @@ def valid_ops(ops, nw):
     src_changed = False
     manual = {}
     nj = 0
+    ncommits = 2            # the source branch starts with two commits
     for op in ops:
         if op == 'D':
             if seen_d:
@@ -250,8 +233,12 @@ def valid_ops(ops, nw):
             src_changed = True
         elif op in ('A', 'E'):
             src_changed = True
+            if op == 'E':
+                ncommits += 1
         elif op == 'Z':
-            pass
+            if ncommits < 2:     # an empty source branch is "already merged": the command is never reached
+                return False
+            ncommits -= 1
         else:
             kind, k = op[:-1], int(op[-1])
             if k >= nw:
@@ -321,6 +308,9 @@ def build_history(sc):
                 ev.append({'e': 'push', 'branch': w, 'label': label('manual'), 'as': 'author', 'c15_manual': True})
             elif kind == 'B':
                 ev.append({'e': 'push', 'branch': w, 'label': label('asrobot'), 'as': 'bert-e', 'c15_manual': True})
+            elif kind == 'X':
+                ev.append({'e': 'c15_empty_commit', 'branch': w, 'label': label('emptyrobot'), 'as': 'bert-e',
+                           'c15_manual': True})
             elif kind == 'Ms':
                 ev.append({'e': 'merge_push', 'branch': w, 'other': SRC1, 'label': label('mmerge'), 'c15_manual': True})
             elif kind == 'Md':
@@ -368,7 +358,19 @@ def run_history(history, exe, facts):
             if not e.startswith('job_'):
                 before_tips = dict(world.refs()) if ev.get('c15_manual') else None
                 try:
-                    res = world.apply({k: v for k, v in ev.items() if not k.startswith('c15')})
+                    if e == 'c15_empty_commit':
+                        b = ev['branch']
+                        world.ugit('fetch', '-q', 'origin')
+                        world.ugit('checkout', '-q', '-B', b, 'origin/' + b)
+                        world.ugit('config', 'user.name', ev['as'])
+                        try:
+                            world.ugit('commit', '-q', '--allow-empty', '-m', 'U:' + ev['label'])
+                        finally:
+                            world.ugit('config', 'user.name', sysworld.ADMIN)
+                        world.ugit('push', '-q', 'origin', b)
+                        res = {}
+                    else:
+                        res = world.apply({k: v for k, v in ev.items() if not k.startswith('c15')})
                 except Exception as exc:
                     res = {'skipped': str(exc)[:200]}
                     count('user_event_skipped:' + e)
@@ -436,6 +438,9 @@ def run_history(history, exe, facts):
             out['nontrivial'].append('%s|%s|manual=%d|lossy=%s|%s' % (
                 history['scenario']['layout'], meta['cmd'], n_manual, lossy, obs['status']))
             count('demand:%s' % m['demand'])
+            if obs['status'] == 'LossyResetWarning' and n_manual == 0:
+                count('refusal_without_held_manual_commit')
+                out['refused_plain'] = ','.join(history['scenario'].get('ops', []))
             count('held_manual_commits=%d' % n_manual)
             count('robot_seen=%d' % len(ctxd['seen']))
             out['sample'] = {'scenario': history['scenario'], 'impl': {k: impl[k] for k in ('status', 'deleted', 'declined')},
@@ -469,7 +474,7 @@ def corpus_histories():
     return res
 
 
-QUICK_SEQS = [[], ['P0'], ['E', 'Ms0'], ['A', 'J', 'P0'], ['D', 'R', 'P0', 'J'], ['B0', 'Z'], ['Z', 'P0', 'E', 'J']]
+QUICK_SEQS = [[], ['P0'], ['E', 'Ms0'], ['A', 'J', 'P0'], ['D', 'R', 'P0', 'J'], ['B0', 'Z'], ['E', 'J', 'Z', 'Z', 'X0']]
 
 
 def scenarios(ctx):
@@ -519,8 +524,17 @@ def finding_key(v):
     return core.canon({'property': ID, 'monitor': v['monitor'], 'what': v['detail'].get('what')})
 
 
+FALLBACK_FACTS = {'feature_ignore_merges': True, 'walk_ignore_merges': True, 'parent_rule_all': False,
+                  'push_prune': True, 'remove_guard_prefixes': ['w/', 'q/', 'tmp/'], 'w_format': 'w/{}/{}',
+                  'author_cmd': 'git show --pretty="%%aN" %s', 'no_merges_flag': '--no-merges'}
+
+
 def run(ctx, histories_=None):
-    facts = read_code_facts()
+    try:
+        facts = read_code_facts()
+    except Exception as exc:      # GEN already failed (PROVE is reported broken): still hunt for a failing input
+        facts = dict(FALLBACK_FACTS)
+        ctx.notes.append('facts could not be read (%s): monitors run with the last known shape of the code' % exc)
     ctx.notes.append('code variant (Facts_C15): feature log hides merges=%s, walk log hides merges=%s, parent test over '
                      'all parents=%s, prune=%s' % (facts['feature_ignore_merges'], facts['walk_ignore_merges'],
                                                    facts['parent_rule_all'], facts['push_prune']))
@@ -578,6 +592,16 @@ def run(ctx, histories_=None):
                           '%s: %s' % (v['monitor'], v['detail'].get('what')), key=finding_key(v))
         if r['sample'] and (len(ctx.samples) < 4):
             ctx.sample(r['sample'])
+        if r.get('refused_plain') is not None:
+            ctx.extra.setdefault('refusals_without_held_manual_commit_ops', [])
+            if len(ctx.extra['refusals_without_held_manual_commit_ops']) < 40:
+                ctx.extra['refusals_without_held_manual_commit_ops'].append(r['refused_plain'])
+        for v in r['violations']:
+            ctx.extra.setdefault('violating_scenarios', [])
+            if len(ctx.extra['violating_scenarios']) < 400:
+                sc_ = h.get('scenario', {})
+                ctx.extra['violating_scenarios'].append('%s|%s|%s|%s|%s' % (
+                    v['detail'].get('what'), sc_.get('layout'), sc_.get('mode'), ','.join(sc_.get('ops', [])), sc_.get('cmd')))
     ctx.extra['max_history_wall_s'] = round(max([r['wall'] for r in results] or [0]), 1)
 
 
